@@ -179,6 +179,7 @@ def handleSpecial (stream : String) (args : List String) : String :=
   | "hpktbuf", _ => "noncompared"
   | "rtcpmarshal", _ => "noncompared"
   | "sctpflood", _ => "noncompared"
+  | "mediaflood", _ => "noncompared"
   | "turnclient", _ => "noncompared"
   | "sdpsdes", _ => "noncompared"
   | "udptlbuf", ms :: e0 :: ops =>
